@@ -154,7 +154,7 @@ template <class M> inline std::string text(const M& m) { std::ostringstream s; s
 // shared const models for the read-only ops (constructed by the harness before any thread starts)
 extern MSSMNoFV_onshell* shared_mssm[2];
 extern THDM* shared_thdm[2];
-extern std::string slha_text[3];
+extern std::string slha_text[5];
 
 typedef void (*OpFn)(int, Res&);
 struct Op { const char* name; OpFn fn; bool uses_shared; };
@@ -190,6 +190,27 @@ inline void O7(int p, Res& r) {
    )
 }
 
+// O8: THDM through the SLHA reader (mass basis file / gauge basis file), as the command-line program does
+inline void O8(int p, Res& r) {
+   GUARDED(
+      GM2_slha_io io; std::istringstream is(slha_text[p ? 4 : 3]); io.read_from_stream(is);
+      Config_options cfg; cfg.running_couplings = true; io.fill(cfg);
+      SM sm; thdm::Mass_basis mb; thdm::Gauge_basis gb; io.fill(sm); io.fill(mb); io.fill(gb);
+      thdm::Config tc; tc.force_output = cfg.force_output; tc.running_couplings = cfg.running_couplings;
+      const bool mass = mb.mh != 0 || mb.mH != 0 || mb.mA != 0 || mb.mHp != 0 || mb.sin_beta_minus_alpha != 0;
+      THDM m = mass ? THDM(mb, sm, tc) : THDM(gb, sm, tc);
+      eval_thdm(m, r); r.txt = text(m);
+   )
+}
+// O9: MSSM without tan(beta) resummation (convert_to_non_tan_beta_resummed on a copy of the shared model)
+inline void O9(int p, Res& r) {
+   GUARDED(
+      MSSMNoFV_onshell m(*shared_mssm[p]); m.convert_to_non_tan_beta_resummed();
+      push(r, calculate_amu_1loop_non_tan_beta_resummed(*shared_mssm[p])); push(r, calculate_amu_2loop_non_tan_beta_resummed(*shared_mssm[p]));
+      eval_mssm(m, r); r.txt = text(m);
+   )
+}
+
 static const Op OPS[] = {
    {"O1_mssm_gm2calc_build_eval", O1, false},
    {"O2_thdm_build_eval", O2, false},
@@ -198,6 +219,8 @@ static const Op OPS[] = {
    {"O5_shared_thdm_readonly", O5, true},
    {"O6_loopfunction_batch", O6, false},
    {"O7_slha_parse_fill", O7, false},
+   {"O8_thdm_slha_parse_build_eval", O8, false},
+   {"O9_mssm_non_resummed_copy", O9, true},
 };
 static const int NOPS = sizeof(OPS) / sizeof(OPS[0]);
 
@@ -205,6 +228,8 @@ inline std::string slurp(const std::string& path) { std::string s; FILE* f = std
 inline void init_shared(const std::string& repo) {
    slha_text[0] = slurp(repo + "/input/example.slha");
    slha_text[1] = slurp(repo + "/input/example.gm2");
+   slha_text[3] = slurp(repo + "/input/example.thdm");
+   slha_text[4] = slurp(repo + "/test/test_points/thdm_gauge-basis.in");
    slha_text[2] = slha_text[0];
    for (size_t pos = 0; (pos = slha_text[2].find("Q= 1.00000000e+03", pos)) != std::string::npos; pos += 5) slha_text[2].replace(pos, 17, "Q= 2.00000000e+03");
    { size_t pos = slha_text[2].find("4.89499929e+02"); if (pos != std::string::npos) slha_text[2].replace(pos, 14, "4.70000000e+02"); }
